@@ -275,8 +275,16 @@ class Ctx:
                 return
             if (self.path_no != 1 or self.cfg.get("_prefix")) and (self.path_no + self.seed) % self.witness_stride != 0:
                 return
+        wide = list(getattr(self.scenario, "wide", [])) if self.cfg.get("wide") else []
         try:
-            m = self._solve_realisable([])
+            m = None
+            if wide and self.res.get("wide_witnesses", 0) < 3:
+                # C13: prefer an image whose tables and data sit beyond 2^40 bytes / 2^32 sectors
+                m = self._solve_realisable(wide)
+                if m is not None:
+                    self.res["wide_witnesses"] = self.res.get("wide_witnesses", 0) + 1
+            if m is None:
+                m = self._solve_realisable([])
         except Inconclusive:
             self.res["notes"].append("witness skipped: solver timeout")
             return
@@ -355,6 +363,8 @@ class Ctx:
                         bv_checks=st["bv_checks"], wall_s=round(time.time() - self.t0, 2), int_s=round(st["int_s"], 2),
                         bv_s=round(st["bv_s"], 2), int_decides=st.get("int_decides", 0))
         self.res["pending"] = list(getattr(self.E, "pending", []))
+        if self.cfg.get("wide") and not self.cfg.get("_split") and self.res["witnesses"] and not self.res.get("wide_witnesses"):
+            self.res["notes"].append("no witness with wide offsets was replayed in this task")
         if cov:
             self.res["funcs"] = sorted(cov.funcs)
             self.res["lines"] = sorted(cov.lines)
@@ -508,3 +518,12 @@ def mi(model, x):
                 v -= 1 << W
         return v
     return replay.model_int(model, x)
+
+
+def io_cases(reads, bound_bytes, bound_calls):
+    """C13: the bytes and calls the reader issued to the file are bounded by a function of the header fields and the
+    request only. reads: list of (position, length) recorded by the symbolic file."""
+    total = 0
+    for _, ln in reads:
+        total = total + ln
+    return [total > bound_bytes, len(reads) > bound_calls]
